@@ -2,4 +2,4 @@
 From Coq Require Import List NArith ZArith Bool.
 From Coq Require Import ExtrOcamlBasic.
 Require Import Parser Resolver CoreSchema Loader Json.
-Extraction "model.ml" json_tokens wrap json_wf json_distinct json_depth json_number yaml_of_json yaml_of_json_ordered c13_impl_ok colon_tab.
+Extraction "model.ml" json_tokens wrap json_wf json_distinct json_depth json_number yaml_of_json yaml_of_json_ordered c13_impl_ok colon_tab json_compact json_chars_ok.
